@@ -1203,6 +1203,19 @@ impl NodeMut for XmlDocument {
                 return Err(error::DomException::WrongDocumentErr)?;
             }
 
+            // the document element comes after the document type declaration (XML 1.0 [1], [22]): an
+            // element put in front of the DOCTYPE would give a document that cannot be written out
+            if let XmlNode::Element(_) = new_child {
+                let children = self.children();
+                let doctype = children.iter().position(|c| matches!(c, XmlNode::DocumentType(_)));
+                let at = children.iter().position(|c| c.id() == r.id());
+                if let (Some(d), Some(i)) = (doctype, at) {
+                    if i <= d {
+                        return Err(error::DomException::HierarchyRequestErr)?;
+                    }
+                }
+            }
+
             match self
                 .document
                 .borrow()
